@@ -55,6 +55,7 @@ AS_BUILT = [
     # (deviation, property (witness-printing variant), name set, op kinds, steps, clones)
     ("CharPrefixCleanupPath", "DeleteRemovesOnlyOwnW", "a-ab-a/b", ["branch"], 3, 0),
     ("CharPrefixCleanupPath", "DeleteRemovesAllOwnW", "a-ab-a/b", ["branch"], 3, 0),
+    ("SubBranchKeepsDir", "DeleteRemovesAllOwnW", "a-ab-a/b", ["branch"], 3, 0),
     ("CleanupIgnoresDependents", "BranchIsolationW", "a-ab", ["write", "branch", "cleanup", "clone"], 5, 1),
     ("CleanupIgnoresDependents", "BranchIsolationOnBranchW", "a-ab", ["write", "branch", "cleanup"], 5, 0),
     ("CloneReadsHandleLocation", "RefResolvesW", "a-ab", ["write", "branch"], 4, 0),
